@@ -710,7 +710,10 @@ class TypeTransformer:
             t = t.__forward_value__
         # the converter captured when the type was declared may have been superseded by a later
         # registration: resolve again (memoised), the captured one is only the fallback
-        func = self.resolver_transformer(t) or func
+        resolved = self.resolver_transformer(t)
+        if resolved is not None:
+            # (a registered converter may be any callable, also one that is falsy)
+            func = resolved
         return func(self, data, t)
 
     def __call__(self, data, t: Type[T]) -> T:
@@ -722,7 +725,7 @@ class TypeTransformer:
             # strict equal. not isinstance, like datetime is instance of date
             return data
         transformer = self.resolver_transformer(t)
-        if not transformer:
+        if transformer is None:
             return self.handle_unresolved(data, t)
         return transformer(self, data, t)
 
